@@ -282,20 +282,20 @@ theorem C12_eddsa_sigParse_iff (buf : Bytes) (k : Nat) (R : Nat × Nat) (s : Nat
     P.sigParse sq buf = .ok (k, R, s) ↔
       buf.length = 2 * P.size ∧ k = 2 * P.size ∧ 0 < P.yRaw buf ∧ P.yRaw buf < P.q ∧
       s = beToNat ((buf.drop P.size).take P.size) ∧ 0 < s ∧ s < P.order ∧
-      R = P.decompress sq buf ∧ P.onCurve R = true := by
+      R = P.decompress sq buf ∧ P.onCurve R = true ∧ P.hasX sq buf = true := by
   constructor
   · intro h
     unfold EdParams.sigParse at h
     simp only [] at h
-    split_ifs at h with h1 h2 h3 h4 h5 h6
+    split_ifs at h with h1 h2 h3 h4 h5 h7 h6
     simp only [Except.ok.injEq, Prod.mk.injEq] at h
     obtain ⟨rfl, rfl, rfl⟩ := h
-    refine ⟨by omega, rfl, by omega, by omega, rfl, by omega, by omega, rfl, by simpa using h6⟩
-  · rintro ⟨hl, rfl, hy0, hyq, rfl, hs0, hsl, rfl, hon⟩
+    refine ⟨by omega, rfl, by omega, by omega, rfl, by omega, by omega, rfl, by simpa using h6, by simpa using h7⟩
+  · rintro ⟨hl, rfl, hy0, hyq, rfl, hs0, hsl, rfl, hon, hx⟩
     unfold EdParams.sigParse
     simp only []
     rw [if_neg (by omega), if_neg (by omega), if_neg (by omega), if_neg (by omega), if_neg (by omega),
-      if_neg (by simpa using hon)]
+      if_neg (by simpa using hx), if_neg (by simpa using hon)]
 
 /-- `hFunc == nil` is refused -/
 theorem C12_eddsa_nil_hash (A : Nat × Nat) (sig msg : Bytes) :
@@ -341,7 +341,7 @@ theorem C12_eddsa_sig_errors (buf : Bytes) :
         P.order ≤ beToNat ((buf.drop P.size).take P.size) → 0 < P.order → P.sigParse sq buf = .error .sBig) ∧
     (buf.length = 2 * P.size → 0 < P.yRaw buf → P.yRaw buf < P.q →
         0 < beToNat ((buf.drop P.size).take P.size) → beToNat ((buf.drop P.size).take P.size) < P.order →
-        P.onCurve (P.decompress sq buf) = false → P.sigParse sq buf = .error .notOnCurve) := by
+        P.hasX sq buf = true → P.onCurve (P.decompress sq buf) = false → P.sigParse sq buf = .error .notOnCurve) := by
   unfold EdParams.sigParse
   refine ⟨?_, ?_, ?_, ?_, ?_, ?_⟩
   all_goals intros
@@ -458,7 +458,7 @@ theorem C12_eddsa_sig_roundtrip' (P : EdParams) (sq : Nat → Option Nat) (buf :
     (hq : P.q % 2 = 1) (hsz : 0 < P.size) (hsq : ∀ u r, sq u = some r → r < P.q)
     (h : P.sigParse sq buf = .ok (k, R, s)) (hcanon : ¬ (P.signBit buf = true ∧ R.1 = 0)) :
     P.sigBytes R s = buf ∧ k = buf.length := by
-  obtain ⟨hl, rfl, -, hyq, rfl, -, -, rfl, -⟩ := (C12_eddsa_sigParse_iff P sq buf k R s).1 h
+  obtain ⟨hl, rfl, -, hyq, rfl, -, -, rfl, -, -⟩ := (C12_eddsa_sigParse_iff P sq buf k R s).1 h
   refine ⟨?_, hl.symm⟩
   unfold EdParams.sigBytes
   rw [compress_decompress P sq buf hq hsz hsq (by omega) hyq hcanon,
@@ -473,7 +473,7 @@ theorem C12_eddsa_pk_roundtrip' (P : EdParams) (sq : Nat → Option Nat) (buf : 
     P.compress A = buf.take P.size ∧ k = P.size := by
   unfold EdParams.pkParse at h
   simp only [] at h
-  split_ifs at h with h1 h2
+  split_ifs at h with h1 h3 h2
   simp only [Except.ok.injEq, Prod.mk.injEq] at h
   obtain ⟨rfl, rfl⟩ := h
   exact ⟨compress_decompress P sq buf hq hsz hsq (by omega) hy hcanon, rfl⟩
@@ -485,6 +485,20 @@ theorem C12_eddsa_point_roundtrip (P : EdParams) (sq : Nat → Option Nat) (X : 
     (hx : X.1 < P.q) (hy : X.2 < P.q) (hon : P.onCurve X = true) :
     P.decompress sq (P.compress X ++ rest) = X :=
   (decompress_compress P sq X rest hp hodd hsz hfit hs had hx hy hon).1
+
+/-- the library's own encodings pass the "an abscissa exists" test of `PointAffine.SetBytes` -/
+theorem hasX_compress (P : EdParams) (sq : Nat → Option Nat) (X : Nat × Nat) (rest : Bytes)
+    (hp : P.q.Prime) (hodd : P.q % 2 = 1) (hsz : 0 < P.size) (hfit : P.q ≤ 2 ^ (8 * P.size - 1))
+    (hs : SqrtSpec sq P.q) (had : (P.a : ZMod P.q) ≠ (P.d : ZMod P.q))
+    (hx : X.1 < P.q) (hy : X.2 < P.q) (hon : P.onCurve X = true) :
+    P.hasX sq (P.compress X ++ rest) = true := by
+  obtain ⟨-, hyr, -⟩ := decompress_compress P sq X rest hp hodd hsz hfit hs had hx hy hon
+  obtain ⟨x, y⟩ := X
+  simp only at hx hy hyr
+  have hr := ratio_eq_sq P hp x y hon had
+  obtain ⟨r, hsr⟩ := hs.complete (P.ratio y) x hr.symm
+  unfold EdParams.hasX
+  rw [hyr, Nat.mod_eq_of_lt hy, hsr]; rfl
 
 theorem compress_length (P : EdParams) (X : Nat × Nat) : (P.compress X).length = P.size := by
   unfold EdParams.compress; simp [natToBE_length]
@@ -502,7 +516,7 @@ theorem C12_eddsa_sig_roundtrip (P : EdParams) (sq : Nat → Option Nat) (R : Na
   have e : P.sigBytes R s = P.compress R ++ natToBE P.size s := rfl
   rw [C12_eddsa_sigParse_iff, e]
   refine ⟨by rw [List.length_append, hcl, natToBE_length]; omega, rfl, by rw [hyr]; exact hy0, by rw [hyr]; exact hy,
-    ?_, hs0, hsl, hdec.symm, hon⟩
+    ?_, hs0, hsl, hdec.symm, hon, hasX_compress P sq R (natToBE P.size s) hp hodd hsz hfit hs had hx hy hon⟩
   rw [List.drop_left' hcl, List.take_of_length_le (by rw [natToBE_length]),
     beToNat_natToBE_of_lt _ _ (by omega)]
 
@@ -516,7 +530,8 @@ theorem C12_eddsa_pk_roundtrip (P : EdParams) (sq : Nat → Option Nat) (A : Nat
   have hcl := compress_length P A
   unfold EdParams.pkParse
   simp only []
-  rw [if_neg (by rw [List.length_append, hcl]; omega), hdec, if_neg (by simp [hon])]
+  rw [if_neg (by rw [List.length_append, hcl]; omega),
+    if_neg (by simp [hasX_compress P sq A rest hp hodd hsz hfit hs had hx hy hon]), hdec, if_neg (by simp [hon])]
 
 /-- EdDSA private keys: public key ‖ scalar ‖ 32 bytes of nonce seed; `2·size + 32` bytes consumed (the Go code reports
     `3·size`, a finding on bw6-633 / bw6-761) -/
@@ -533,7 +548,9 @@ theorem C12_eddsa_sk_roundtrip (P : EdParams) (sq : Nat → Option Nat) (A : Nat
   rw [e]
   unfold EdParams.skParse EdParams.skSize
   simp only []
-  rw [if_neg (by simp only [List.length_append, hcl, natToBE_length, hseed]; omega), hdec, if_neg (by simp [hon])]
+  rw [if_neg (by simp only [List.length_append, hcl, natToBE_length, hseed]; omega),
+    if_neg (by simp [hasX_compress P sq A (natToBE P.size sc ++ (seed ++ rest)) hp hodd hsz hfit hs had hx hy hon]), hdec,
+    if_neg (by simp [hon])]
   have h1 : (P.compress A ++ (natToBE P.size sc ++ (seed ++ rest))).drop P.size = natToBE P.size sc ++ (seed ++ rest) :=
     List.drop_left' hcl
   have h2 : (P.compress A ++ (natToBE P.size sc ++ (seed ++ rest))).drop (2 * P.size) = seed ++ rest := by
@@ -899,12 +916,16 @@ theorem C12_eddsa_key_prefix (P : EdParams) (sq : Nat → Option Nat) (buf rest 
     intro b hb
     unfold EdParams.decompress EdParams.yRaw EdParams.signBit
     rw [List.take_append_of_le_length hb]
+  have hhx : ∀ b : Bytes, P.size ≤ b.length → P.hasX sq (b ++ rest) = P.hasX sq b := by
+    intro b hb
+    unfold EdParams.hasX EdParams.yRaw
+    rw [List.take_append_of_le_length hb]
   constructor
   · intro h
     unfold EdParams.pkParse
     have h1 : ¬ (buf ++ rest).length < P.size := by rw [List.length_append]; omega
     have h2 : ¬ buf.length < P.size := by omega
-    rw [if_neg h1, if_neg h2, hdec buf (by omega)]
+    rw [if_neg h1, if_neg h2, hdec buf (by omega), hhx buf (by omega)]
   · intro h
     unfold EdParams.skSize at h
     unfold EdParams.skParse EdParams.skSize
@@ -914,7 +935,7 @@ theorem C12_eddsa_key_prefix (P : EdParams) (sq : Nat → Option Nat) (buf rest 
       rw [List.drop_append_of_le_length (by omega), List.take_append_of_le_length (by simp; omega)]
     have e2 : ((buf ++ rest).drop (2 * P.size)).take 32 = (buf.drop (2 * P.size)).take 32 := by
       rw [List.drop_append_of_le_length (by omega), List.take_append_of_le_length (by simp; omega)]
-    rw [if_neg h1, if_neg h2, hdec buf (by omega), e1, e2]
+    rw [if_neg h1, if_neg h2, hdec buf (by omega), hhx buf (by omega), e1, e2]
 
 /-- non-vacuity: 96 bytes starting with the flag bits 000 (what `G1Affine.SetBytes` would read as an uncompressed point)
     are not a bls12-381 public key, whatever scalar multiplication is used -/
